@@ -97,6 +97,29 @@ def deposed(m, w, k=1, tail=2, newk=1, old=N1, new=N2, black=False):
     return w
 
 
+def deposed_obs(m, w, tail=2, newk=1, old=N1, new=N2):
+    """A leader cut off from the other voters but still connected to the read-only nodes: its
+    uncommitted tail is in flight to them (not delivered). The other voters elected `new`, which
+    committed different entries at the same positions; what `new` sent to the read-only nodes is also
+    still in flight, so the explorer decides the order in which the observers hear the two leaders."""
+    w = steady(m, w, 1, old)
+    voters = [n for n, _ in w.nodes if not n.startswith('o')]
+    obs = [n for n, _ in w.nodes if n.startswith('o')]
+    for v in voters:
+        if v != old:
+            w = m.cut(w, old, v)
+    for _ in range(tail):
+        w = m.do(w, ('S', old, 'free'))
+        w = m.do(w, ('Z', old))
+    w = m.do(w, ('T', old, m.cfg.period + 0.001))
+    rest = [n for n in voters if n != old]
+    w = elect(m, w, new, only=rest)
+    w = beat(m, w, new, only=rest, times=2)
+    if newk:
+        w = submit(m, w, new, newk, only=rest)
+    return w
+
+
 def deposed_twice(m, w, k=1, tail=3, newk=3, newk2=2, old=N1, new=N2, newer=N3):
     """As deposed, then a third node takes over from `new` and appends more: the old leader's
     log conflicts several entries below the current leader's optimistic nextIndex."""
@@ -514,7 +537,7 @@ def candidates(m, w, who=(N1, N2)):
     return w
 
 
-SEEDS = dict(voted=voted, stalled_old_code=stalled_old_code, reelected5=reelected5, stale_reset5=stale_reset5, stale_vote5=stale_vote5, stale_snapshot=stale_snapshot, ahead_full=ahead_full, fig8_full=fig8_full, candidates=candidates, battery_lagsnap=battery_lagsnap, ahead=ahead, lagging_newleader=lagging_newleader, m_deposed=m_deposed, split=split, version_snap=version_snap, fresh=fresh, steady=steady, lagging=lagging, lagging_snap=lagging_snap, deposed=deposed,
+SEEDS = dict(deposed_obs=deposed_obs, voted=voted, stalled_old_code=stalled_old_code, reelected5=reelected5, stale_reset5=stale_reset5, stale_vote5=stale_vote5, stale_snapshot=stale_snapshot, ahead_full=ahead_full, fig8_full=fig8_full, candidates=candidates, battery_lagsnap=battery_lagsnap, ahead=ahead, lagging_newleader=lagging_newleader, m_deposed=m_deposed, split=split, version_snap=version_snap, fresh=fresh, steady=steady, lagging=lagging, lagging_snap=lagging_snap, deposed=deposed,
              deposed_snap=deposed_snap, deposed_twice=deposed_twice, pending=pending, reconnect_pipeline=reconnect_pipeline,
              forwarded=forwarded, fig8=fig8)
 
